@@ -38,6 +38,17 @@ func onlySpaceTab(b []byte) bool {
 
 var bom = []byte{0xef, 0xbb, 0xbf}
 
+// hasLoneCR reports whether src[s:e] contains a CR that is not followed by LF
+// in src (the LF may be the first byte of the next token).
+func hasLoneCR(src []byte, s, e int) bool {
+	for i := s; i < e && i < len(src); i++ {
+		if src[i] == '\r' && (i+1 >= len(src) || src[i+1] != '\n') {
+			return true
+		}
+	}
+	return false
+}
+
 // checkTokens applies the tiling and position oracle to one token stream.
 // It returns nil when everything demanded holds.
 func checkTokens(mode, fn string, src []byte, start hcl.Pos, toks hclsyntax.Tokens, ix *refpos.Index) *engine.Outcome {
@@ -87,15 +98,20 @@ func checkTokens(mode, fn string, src []byte, start hcl.Pos, toks hclsyntax.Toke
 		}
 	}
 	// ---- positions ----
-	if ix.LoneCR || ix.LeadingBOM {
-		// lone CR: neither spec nor property says whether it is a newline.
+	if ix.LeadingBOM {
 		// BOM: not permitted by the spec, so its column width is undefined.
 		return nil
 	}
+	// A lone CR (not followed by LF) is not a newline sequence of the native
+	// syntax (hclsyntax/spec.md: "either U+000A or U+000D followed by U+000A")
+	// and is a grapheme cluster of its own: it is one column and does not end
+	// the line, whichever token it sits in (comment, invalid token, quoted
+	// newline, string/heredoc literal) and whichever scanning mode is active.
+	// The reference index computes exactly that (refpos Native*).
 	colsOK := true
 	for _, t := range toks {
 		s, e := t.Range.Start.Byte-start.Byte, t.Range.End.Byte-start.Byte
-		if !ix.ColDefined(s) || !ix.ColDefined(e) {
+		if !ix.NativeColDefined(s) || !ix.NativeColDefined(e) {
 			colsOK = false
 			break
 		}
@@ -110,6 +126,11 @@ func checkTokens(mode, fn string, src []byte, start hcl.Pos, toks hclsyntax.Toke
 		for k, p := range []hcl.Pos{t.Range.Start, t.Range.End} {
 			which := []string{"start", "end"}[k]
 			cause := "within." + t.Type.String()
+			if hasLoneCR(src, s, t.Range.End.Byte-start.Byte) {
+				// construct + condition: a token of this type that contains a
+				// carriage return which is not part of a CRLF newline sequence
+				cause += ".lone-cr"
+			}
 			if k == 0 {
 				cause = "gap-spaces"
 				if bytes.IndexByte(src[prevEnd:s], '\t') >= 0 {
@@ -119,7 +140,7 @@ func checkTokens(mode, fn string, src []byte, start hcl.Pos, toks hclsyntax.Toke
 				}
 			}
 			off := p.Byte - start.Byte
-			if ix.LineDefined(off) && p.Line != ix.Line(off) {
+			if ix.NativeLineDefined(off) && p.Line != ix.Line(off) {
 				return fail("line."+cause, "token %d (%s %q) %s: line %d at byte %d, counting newlines gives %d", i, t.Type, t.Bytes, which, p.Line, p.Byte, ix.Line(off))
 			}
 			if colsOK && p.Column != ix.Col(off) {
